@@ -351,7 +351,7 @@ class AppendDim:
             o["index"] = None if (ax == 0 and rng.random() < 0.5) else \
                 [-1 if j == ax else (rng.randrange(a.data.shape[j]) if a.data.shape[j] else 0)
                  for j in range(a.data.ndim)]
-            if o["index"] is not None and any(a.data.shape[j] == 0 for j in range(a.data.ndim) if j != ax):
+            if any(a.data.shape[j] == 0 for j in range(a.data.ndim) if j != ax):
                 return None
         return o
 
@@ -385,8 +385,9 @@ class AppendDim:
             index_ = o.get("index")
             if a.is_text or a.data.ndim < 1:
                 return res(NOOP)
-            if index_ is not None and (len(index_) != a.data.ndim or any(
-                    i != -1 and i >= a.data.shape[j] for j, i in enumerate(index_))):
+            eff = index_ if index_ is not None else [-1] + [0] * (a.data.ndim - 1)
+            if len(eff) != a.data.ndim or eff.count(-1) != 1 or any(
+                    i != -1 and not (0 <= i < a.data.shape[j]) for j, i in enumerate(eff)):
                 return res(NOOP)
             r = run.call(lambda: ah.append_range_dimension_using_self(index_))
             d.link = M.MDimLink(a, index_ if index_ is not None else [-1] + [0] * (a.data.ndim - 1))
@@ -676,7 +677,11 @@ class LinkAppend:
             return None
         ok = P.pick(rng, okinds)
         li = rng.randrange(len(LINKLISTS[ok]))
-        return {"op": "link_append", "okind": ok, "o": idx(rng), "list": li, "t": idx(rng),
+        oi = idx(rng)
+        owner = run.pick(ok, oi)
+        if not link_candidates(run, owner, LINKLISTS[ok][li][1]):
+            return None
+        return {"op": "link_append", "okind": ok, "o": oi, "list": li, "t": idx(rng),
                 "via": gen_via(run, rng), "tv": gen_via(run, rng), "extend": rng.random() < 0.15}
 
     def do(self, run, o):
@@ -729,7 +734,8 @@ class LinkRemove:
         oh = run.R(owner, o.get("via", 0))
         lst = getattr(oh, attr)
         by = o.get("by", "obj")
-        if by == "name" and (looks_like_uuid(t.name) or sum(1 for x in ml if x.name == t.name) > 1):
+        if by == "name" and ((run.profile.masked("uuid_like_names") and looks_like_uuid(t.name))
+                             or sum(1 for x in ml if x.name == t.name) > 1):
             by = "id"
         if by == "obj":
             key = run.R(t, 0)
@@ -798,7 +804,14 @@ class SetRole:
     """multi-tag positions / extents, feature data."""
 
     def gen(self, run, rng):
-        role = P.pick(rng, ["positions", "extents", "extents_none", "feature_data"])
+        roles = []
+        if run.enum("mtag"):
+            roles += ["positions", "extents", "extents_none"]
+        if run.enum("feature"):
+            roles += ["feature_data"]
+        if not roles:
+            return None
+        role = P.pick(rng, roles)
         return {"op": "set_role", "role": role, "o": idx(rng), "t": idx(rng), "via": gen_via(run, rng),
                 "tv": gen_via(run, rng)}
 
@@ -859,7 +872,8 @@ class Delete:
         sib = run.siblings(m)
         pos = next(i for i, x in enumerate(sib) if x is m)
         by = o.get("by", "name")
-        if by == "name" and (m.kind == "feature" or looks_like_uuid(m.name)):
+        if by == "name" and (m.kind == "feature" or (run.profile.masked("uuid_like_names")
+                                                     and looks_like_uuid(m.name))):
             by = "id"
         if by == "name":
             key = m.name
@@ -873,7 +887,7 @@ class Delete:
             key = run.R(m, 4)
         linked = bool(run.linkers(m)) if m.kind != "feature" else False
         r = run.call(lambda: cont.__delitem__(key))
-        run.expect_ok(r, "delete_" + m.kind)
+        run.expect_ok(r, "delete_%s:%s" % (m.kind, by))
         closure = M.ownership_closure(m)
         M.delete_objects(run.fs_of(parent).model if parent.kind != "file" else parent, closure)
         run.pool = {k: v for k, v in run.pool.items() if k not in set(id(x) for x in closure)}
@@ -1010,3 +1024,160 @@ class Open:
 class Nop:
     def do(self, run, o):
         return res(NOOP)
+
+
+# ------------------------------------------------------------------------------------------
+# container agreement oracle (C03)
+# ------------------------------------------------------------------------------------------
+import re as _re
+UUID_RE = _re.compile(r"^[0-9a-f]{8}-[0-9a-f]{4}-4[0-9a-f]{3}-[89ab][0-9a-f]{3}-[0-9a-f]{12}$")
+
+
+def check_container(run, parent_m, kind, site):
+    ph = run.R(parent_m, 0)
+    attr = run.CONT[kind]
+    try:
+        cont = getattr(ph, attr)
+    except Exception as e:  # noqa
+        run.violation("container_agreement", site, kind + ":container_raises", repr(e))
+    check_seq(run, cont, list(getattr(parent_m, attr)), kind, attr, site)
+
+
+def check_linklist(run, owner_m, attr, tkind, site):
+    oh = run.R(owner_m, 0)
+    try:
+        cont = getattr(oh, attr)
+    except Exception as e:  # noqa
+        run.violation("container_agreement", site, "link_" + tkind + ":container_raises", repr(e))
+    check_seq(run, cont, list(getattr(owner_m, attr)), "link_" + tkind, attr, site)
+
+
+def check_seq(run, cont, ms, kind, attr, site):
+    """len / iteration / [i] / [-i] / [name] / [id] / name in / id in / entity in / items() must all
+    describe the model's sequence (creation order)."""
+    ids = [m.id for m in ms]
+    has_names = not kind.endswith("feature")
+    names = [m.name for m in ms] if has_names else []
+
+    def bad(what, detail):
+        run.violation("container_agreement", site, kind + ":" + what, detail)
+
+    try:
+        n = len(cont)
+    except Exception as e:  # noqa
+        bad("len_raises", repr(e))
+    if n != len(ms):
+        bad("len", "len=%d model=%d" % (n, len(ms)))
+    try:
+        it = [x.id for x in cont]
+    except Exception as e:  # noqa
+        bad("iter_raises", repr(e))
+    if it != ids:
+        bad("iter", "iteration %r model %r" % (it, ids))
+    try:
+        items = [(k, v.id) for k, v in cont.items()]
+    except Exception as e:  # noqa
+        bad("items_raises", repr(e))
+    if items != [(i, i) for i in ids]:
+        bad("items", "items %r" % (items,))
+    for i, m in enumerate(ms):
+        keys = [("pos", i), ("neg", i - len(ms)), ("id", m.id)]
+        if has_names and names.count(m.name) == 1:
+            keys.append(("name", m.name))
+        for label, key in keys:
+            try:
+                got = cont[key]
+                gid = got.id
+            except Exception as e:  # noqa
+                bad("get_%s_raises" % label, "%s[%r] raised %r" % (attr, key, e))
+            if gid != m.id:
+                bad("get_" + label, "%s[%r] -> %s expected %s" % (attr, key, gid, m.id))
+            if has_names and got.name != m.name:
+                bad("get_%s_name" % label, "%r != %r" % (got.name, m.name))
+        for label, key in keys[2:] + [("obj", None)]:
+            try:
+                if label == "obj":
+                    key = cont[i]
+                r = key in cont
+            except Exception as e:  # noqa
+                bad("contains_%s_raises" % label, "%r in %s raised %r" % (key, attr, e))
+            if r is not True:
+                bad("contains_" + label, "%r in %s -> %r" % (key if label != "obj" else m.id, attr, r))
+        if not UUID_RE.match(str(m.id)):
+            bad("id_format", repr(m.id))
+    dead_feature = kind == "feature" and any(m.data is None for m in ms)
+    for label, key in (("name", "no-such-name-é"), ("id", "00000000-0000-4000-8000-000000000000")):
+        if dead_feature:
+            # a feature whose data array was deleted raises on .data (accepted by C04); the feature
+            # container's data-name fallback then raises too - not judged
+            break
+        try:
+            r = key in cont
+        except Exception as e:  # noqa
+            bad("contains_absent_raises", "%r in %s raised %r" % (key, attr, e))
+        if r is not False:
+            bad("contains_absent", "%r in %s -> %r" % (key, attr, r))
+        try:
+            cont[key]
+            bad("get_absent", "%s[%r] returned" % (attr, key))
+        except KeyError:
+            pass
+        except Exception as e:  # noqa
+            bad("get_absent_wrong_error", repr(e))
+    for key in (len(ms), -len(ms) - 1):
+        try:
+            cont[key]
+            bad("get_oob", "%s[%d] returned (len %d)" % (attr, key, len(ms)))
+        except IndexError:
+            pass
+        except Exception as e:  # noqa
+            bad("get_oob_wrong_error", repr(e))
+    run.stats["container_checks"] += 1
+
+
+def check_all_containers(run, site, links=True):
+    for fs in run.files.values():
+        if fs.real is None:
+            continue
+        mf = fs.model
+        check_container(run, mf, "block", site)
+        check_container(run, mf, "section", site)
+        for s in mf.all_sections():
+            check_container(run, s, "section", site)
+            check_container(run, s, "prop", site)
+        for b in mf.blocks:
+            for k in ("group", "array", "frame", "tag", "mtag", "source"):
+                check_container(run, b, k, site)
+            for s in mf.all_sources([b]):
+                check_container(run, s, "source", site)
+            for t in b.tags + b.multi_tags:
+                check_container(run, t, "feature", site)
+            if links:
+                for ok in ("group", "array", "tag", "mtag"):
+                    for ow in getattr(b, run.CONT[ok]):
+                        for attr, tk in LINKLISTS[ok]:
+                            if getattr(ow, attr):
+                                check_linklist(run, ow, attr, tk, site)
+
+
+def check_ids_unique(run, site):
+    for fs in run.files.values():
+        if fs.real is None:
+            continue
+        seen = {}
+        for path, ent in K.iter_real_entities(fs.real):
+            if path == ("file",) or not hasattr(ent, "id"):
+                continue
+            try:
+                i = ent.id
+            except Exception:  # noqa
+                continue
+            if i in seen:
+                run.violation("id_unique", site, "duplicate_id", "%s and %s share id %s" % (seen[i], path, i))
+            seen[i] = path
+            if not UUID_RE.match(str(i)):
+                run.violation("id_unique", site, "id_format", "%s id %r" % (path, i))
+        want = set(m.id for m in fs.model.all_entities())
+        if set(seen) != want:
+            run.violation("id_unique", site, "id_changed", "ids in file differ from ids recorded at creation: "
+                          "%r" % sorted(set(seen) ^ want)[:4])
